@@ -814,3 +814,36 @@ Example C13_max_peer_height_follows_peers_nonvacuous :
   p_max_peer_height (pool_run set_peer_range_fixed
                        [PL_status 9 1 60; PL_status 9 1 3; PL_remove 9; PL_status 1 1 6] (new_pool isig 1)) = 6.
 Proof. vm_compute. reflexivity. Qed.
+
+(* =================================================================================================
+   Known finding F89 (no repair): block sync after a state sync refuses the canonical block that
+   carries evidence of a height at or below the snapshot, because the real evidence pool has no
+   header / validator set of that height on such a node.  ValidateBlock is an oracle in this
+   model, so the model cannot derive the refusal; what it shows is the consequence, as the
+   regression witness: with an oracle that refuses a CANONICAL block (correct commit by the whole
+   validator set), one processing turn stores nothing and stops BOTH honest suppliers; no peer
+   is left, so the pool can never be caught up — "with one honest peer the node reaches the tip"
+   and "only peers that send something else are dropped" fail.  With the accepting oracle the
+   same operations store the block.  The class itself (state-synced node, evidence height below
+   the snapshot, the evidence pool's missing-header error) is decided in Exec.v on the
+   implementation's own answers only (V_known 89).
+   ================================================================================================= *)
+Definition ex_ops2 : list (op isig) :=
+  [ OStatus 1 5 6; OStatus 2 5 6; OMakeRequester; OMakeRequester; OPick 5 1; OPick 6 2;
+    OBlock 1 ex_b5; OBlock 2 ex_b6; OProcess ].
+
+Example C13_state_synced_node_refuses_old_evidence_refuted :
+  (* the pair is canonical: block 6's LastCommit is a full commit of the set for block 5 *)
+  verify_commit ideal_verify ex_vals 1 (b_id ex_b5) (b_height ex_b5) (b_last_commit ex_b6) = R_ok /\
+  (* a node whose ValidateBlock refuses block 5 (state-synced, old evidence) *)
+  (let n := run (fun _ _ => false) ex_ab (verify_commit ideal_verify) ex_ops2 ex_n0 in
+   n_store n = [] /\ st_height (n_state n) = 0 /\ n_stopped n = [2; 1] /\ p_peers (n_pool n) = [] /\
+   p_height (n_pool n) = 5 /\ (forall waited, is_caught_up (n_pool n) waited = false)) /\
+  (* the control: a node that has the history accepts and stores it, nobody is stopped *)
+  (let n := run ex_vb ex_ab (verify_commit ideal_verify) ex_ops2 ex_n0 in
+   List.length (n_store n) = 1%nat /\ st_height (n_state n) = 5 /\ n_stopped n = []).
+Proof.
+  split; [vm_compute; reflexivity|]. split.
+  - cbv zeta. repeat split; try (vm_compute; reflexivity); intro waited; vm_compute; reflexivity.
+  - cbv zeta. repeat split; vm_compute; reflexivity.
+Qed.
